@@ -5,7 +5,7 @@ from .. import gen
 from ..common import rat, run_impl
 
 PROP = "C15"
-LEAN_MODULE = "VK.Props.C15"
+LEAN_MODULE = "VK.Check.C15"
 THEOREMS = [
     "VK.C15_normalize",
     "VK.C15_table_sums_to_one",
